@@ -28,7 +28,8 @@ def make_run(seed, i):
     crng = seeds.derive(seed, PROP, i, "env")
     clock = {"start": crng.choice(CLOCKS) + crng.randrange(0, 86400),
              "steps": [0] + [crng.choice([0, 1, -3600, 86400 * 365, -86400 * 400]) for _ in range(3)]}
-    return {"scenario": sc, "clock": clock, "glob_seed": crng.getrandbits(32)}
+    return {"scenario": sc, "clock": clock, "glob_seed": crng.getrandbits(32),
+            "after_prior_command": crng.random() < 0.15}
 
 
 def nontrivial(sc):
@@ -83,10 +84,36 @@ def first_diff(a, b):
     return f"{len(la)} vs {len(lb)} lines"
 
 
+def prior_command(sc):
+    """An earlier command of the same process on the same files: default string types, no registry-changing option
+    (so it leaves the process-global default registry as it found it), base framework."""
+    import copy
+    p = copy.deepcopy(sc)
+    p["out"] = None
+    p["options"] = dict(p["options"], framework="base", str_types=["int", "float", "bool"], preamble=None, meta=False)
+    return p
+
+
 def evaluate(pool, runs):
-    specs = [cli_spec(r["scenario"], clock=r["clock"], glob_seed=r["glob_seed"]) for r in runs]
+    specs = []
+    for r in runs:
+        sp = cli_spec(r["scenario"], clock=r["clock"], glob_seed=r["glob_seed"])
+        if r.get("after_prior_command"):
+            # the judged command is the SECOND command of its process; the first one reads the same files
+            first = cli_spec(prior_command(r["scenario"]), clock=r["clock"], glob_seed=r["glob_seed"])
+            first["then"] = {"argv": sp["argv"]}
+            first["out_path"] = sp.get("out_path")
+            first["files"] = dict(first["files"], **{"out/.keep": {"text": ""}})
+            sp = first
+        specs.append(sp)
     skips = Skips(limit=max(5, len(runs) // 100))
-    recs = [skips.take(x) for x in pool.map("simenv:job_cli", specs, timeout=90)]
+    fns = ["simenv:job_cli_sequence" if r.get("after_prior_command") else "simenv:job_cli" for r in runs]
+    recs = [None] * len(runs)
+    for fn in ("simenv:job_cli", "simenv:job_cli_sequence"):
+        idx_ = [k for k, f in enumerate(fns) if f == fn]
+        if idx_:
+            for k, x in zip(idx_, pool.map(fn, [specs[k] for k in idx_], timeout=120)):
+                recs[k] = skips.take(x)
     oracles = [skips.take(x) for x in pool.map("scenario:job_oracle",
                                                [{"scenario": r["scenario"], "events": (rec or {}).get("events")}
                                                 for r, rec in zip(runs, recs)], timeout=90)]
@@ -97,7 +124,9 @@ def evaluate(pool, runs):
                        "clock": {"reads": 0, "first": None, "last": None}, "argv": [], "out_b64": None}
             oracles[k] = {"exc": "TimeLimit", "msg": ""}
     # same instant, no -o
-    idx = [i for i, r in enumerate(runs) if r["scenario"].get("out") and recs[i]["exc"] != {"type": "TimeLimit", "msg": ""}]
+    # (a command that is the second of its process reads the simulated clock a second time: no same-instant twin for it)
+    idx = [i for i, r in enumerate(runs) if r["scenario"].get("out") and recs[i]["exc"] != {"type": "TimeLimit", "msg": ""}
+           and not r.get("after_prior_command")]
     no = [unwrap(x) for x in pool.map("simenv:job_cli",
                                       [cli_spec(dict(runs[i]["scenario"], out=None), clock=runs[i]["clock"],
                                                 glob_order=recs[i]["glob_calls"]) for i in idx], timeout=90)]
@@ -133,7 +162,8 @@ def run(ctx):
     n = int((3000 if quick else 40000) * ctx.scale)
     runs = [make_run(ctx.seed, i) for i in range(n)]
     stats = {"both_fail": 0, "ok": 0, "with_o": 0, "glob_ge3": 0, "glob_nonidentity_order": 0, "m_and_l_same_name": 0,
-             "two_model_names": 0, "yaml": 0, "ini": 0, "lookup": 0, "duplicate_arg": 0, "same_pattern_twice": 0}
+             "two_model_names": 0, "yaml": 0, "ini": 0, "lookup": 0, "duplicate_arg": 0, "same_pattern_twice": 0,
+             "second_command_of_its_process": 0}
     distinct, samples = set(), []
     clock_reads, clock_min, clock_max = 0, None, None
     evaluations = 0
@@ -144,6 +174,7 @@ def run(ctx):
             sc = r["scenario"]
             if nontrivial(sc):
                 distinct.add(seeds.digest([sc["files"], sc["args"], sc["options"], rec["glob_calls"]]))
+            stats["second_command_of_its_process"] += bool(r.get("after_prior_command"))
             stats["yaml"] += sc["format"] == "yaml"
             stats["ini"] += sc["format"] == "ini"
             stats["with_o"] += bool(sc.get("out"))
